@@ -419,7 +419,9 @@ func (fe *FuncEnc) builtin(v ssa.Value, b *ssa.Builtin, c *ssa.CallCommon, st *S
 		}
 	case "delete":
 		mt := c.Args[0].Type().Underlying().(*types.Map)
+		fe.curTarget = c.Args[0]
 		fe.mapStore(st, mt, args[0], args[1], "", false)
+		fe.curTarget = nil
 	case "panic":
 		if fe.c == nil || !fe.c.MayPanic {
 			fe.oblige(st, "panic", "", "false", pos, "explicit panic is unreachable")
